@@ -53,6 +53,7 @@ type World struct {
 	D       Decider
 	nextWs  int
 	nOthers int
+	nPerm   int
 	Others  []string // entry names committed by the concurrent writer
 	// SignedDigests records the SHA-256 digests handed to Signer.Sign.
 	SignedDigests [][]byte
@@ -61,7 +62,17 @@ type World struct {
 	// OnCommit runs when a commit has landed, before TryCommit returns
 	NilCommit bool
 	OnCommit  func()
+	// OnManifestWrite runs when an attempt has written the manifest into its workspace (the last
+	// workspace operation of the change step)
+	OnManifestWrite func()
 }
+
+// markedPermanent: how this backend says "do not retry" -- a marker wrapped around the underlying
+// error (the backoff.Permanent idiom); what is underneath may well look transient
+type markedPermanent struct{ inner error }
+
+func (m *markedPermanent) Error() string { return "permanent: " + m.inner.Error() }
+func (m *markedPermanent) Unwrap() error { return m.inner }
 
 func (w *World) log(op string, ws int, out string) { w.Log = append(w.Log, Event{op, ws, out}) }
 
@@ -70,6 +81,11 @@ func (w *World) errFor(op, out string) error {
 	case "retriable":
 		return fmt.Errorf("%s: %w", op, errRetriable)
 	case "permanent":
+		// alternately a flat permanent error and a marker around an error that is transient underneath
+		w.nPerm++
+		if w.nPerm%2 == 1 {
+			return &markedPermanent{inner: fmt.Errorf("%s: %w", op, errRetriable)}
+		}
 		return fmt.Errorf("%s: %w", op, errPermanent)
 	case "conflict":
 		return fmt.Errorf("%s: merge conflict: %w", op, errRetriable)
@@ -136,7 +152,8 @@ func (w *World) GetChangeOps(context.Context) (endorse.ChangeOps, error) {
 func (w *World) RetriableError(err error) bool {
 	w.mu.Lock()
 	defer w.mu.Unlock()
-	r := errors.Is(err, errRetriable)
+	var mp *markedPermanent
+	r := errors.Is(err, errRetriable) && !errors.As(err, &mp)
 	w.log("Retriable", 0, fmt.Sprint(r))
 	return r
 }
@@ -228,6 +245,9 @@ func (ws *Workspace) WriteOrCreateFiles(_ context.Context, files ...*endorse.Fil
 	}
 	for _, f := range files {
 		ws.cur[f.Path] = append([]byte(nil), f.Contents...)
+		if f.Path == w.manifestPath() && w.OnManifestWrite != nil {
+			w.OnManifestWrite()
+		}
 	}
 	return nil
 }
